@@ -124,7 +124,13 @@ func (c13Engine) Gen(t *rapid.T, tier string) any {
 		case k == 7:
 			c.History = append(c.History, simrt.Msg{T: "CLOSE", Sub: rapid.SampledFrom([]string{"a", "b", "c"}).Draw(t, "sub")})
 		case k == 8:
-			c.History = append(c.History, simrt.Msg{T: "COUNT", Sub: "n", Filters: []simrt.FilterSpec{{}}})
+			cf := simrt.FilterSpec{}
+			if rapid.IntRange(0, 1).Draw(t, "countlimit") == 0 {
+				// a COUNT that limit / filter-count middlewares may reject
+				lim := int64(rapid.SampledFrom([]int{1, 3, 1000}).Draw(t, "climit"))
+				cf.Limit = &lim
+			}
+			c.History = append(c.History, simrt.Msg{T: "COUNT", Sub: "n", Filters: []simrt.FilterSpec{cf}})
 		default:
 			e := simrt.EvSpec{Kind: 22242, CreatedAt: mwEpoch}
 			c.History = append(c.History, simrt.Msg{T: "AUTH", Ev: &e})
